@@ -327,8 +327,15 @@ def oracle(ctx, case, a):
     if k.startswith("python:"):
         ctx.fail("unexpected-exception", case, "raised %s" % k, op=op)
         return
-    if a.get("r") in ("nothing-sent", "nothing-delivered"):
-        ctx.fail("lost", case, "the codec neither passed the PDU on nor raised", op=op)
+    if a.get("r") == "nothing-sent":
+        if msg_in_domain(case["m"]) and (case["len"] is None or case["m"][0] in RECOMPUTES):
+            ctx.fail("lost", case, "a valid message was neither sent nor refused", op=op)
+        return
+    if a.get("r") == "nothing-delivered":
+        # dropping without an exception is a refusal too (the model would have to
+        # follow, the property does not care how a bad datagram is refused)
+        if ref_cdec(bytes.fromhex(case["hex"])).get("r") != "err":
+            ctx.fail("lost", case, "a well-formed datagram was neither delivered nor refused", op=op)
         return
     if op in ("dec", "cdec", "bdec") and a.get("r") == "err" and k != "decoding":
         ctx.fail("wrong-error", case, "decoder failed with %s, not DecodingError" % k, op=op)
